@@ -818,7 +818,8 @@ def company_worker(version, args):
     try:
         case = 0
         for rnd in range(args["rounds"]):
-            for tva, tvb in ((2.4, None), (None, 2.4), (2.4, 2.4), (None, None)):
+            # trigger versions on both sides of 2.5 (the armour/attack layout switches there) and the file's own
+            for tva, tvb in ((2.4, 2.6), (2.6, 2.4), (2.4, None), (None, 2.4), (2.6, 2.6)):
                 rng = random.Random(f"C09c:{args['seed']}:{version}:{rnd}:{tvb}")
                 key = f"r{rnd}:A={tva}:B={tvb}"
                 with cc.quiet():
